@@ -35,6 +35,7 @@ def run(tier, only=None):
                     for i2 in range(4):
                         conds.append(Cond("harness.h_c13", "h_hist3", t, part=(1 + k2 * 4 + i2) * 1000 + i1 * 100 + k1 * 10 + 3,
                                           label="h_hist3[chain+isolated, %s n%d; %s n%d]" % (KINDS[k1], i1, KINDS[k2], i2)))
+    conds.append(Cond("harness.h_c13", "h_attach_many", t, part=0, label="h_attach_many[six prefixes, symbolic overlap]"))
     if only:
         conds = [c for c in conds if only in c.label]
     conds.sort(key=lambda c: 0 if "h_step" in c.label else 1)
